@@ -22,15 +22,15 @@ EXTENDS Naturals, Integers, Sequences, FiniteSets, TLC, Json, IOUtils
 Rec == ndJsonDeserialize(IOEnv.TRACE)
 N == Len(Rec)
 
-VARIABLES l, bad, clean, deviations, tok, tokT, cur
-vars == <<l, bad, clean, deviations, tok, tokT, cur>>
+VARIABLES l, bad, clean, builtin, deviations, tok, tokT, cur
+vars == <<l, bad, clean, builtin, deviations, tok, tokT, cur>>
 
 e == Rec[l]
 Is(k) == l <= N /\ e.ev = k
 Flag(c, name) == IF c THEN {} ELSE {name}
 
-TInit == l = 1 /\ bad = {} /\ clean = FALSE /\ deviations = {} /\ tok = -1 /\ tokT = 0 /\ cur = <<0, 0, 0>>
-Reset == /\ Is("Reset") /\ bad' = {} /\ deviations' = {} /\ clean' = e.clean /\ tok' = -1 /\ tokT' = 0
+TInit == l = 1 /\ bad = {} /\ clean = FALSE /\ builtin = FALSE /\ deviations = {} /\ tok = -1 /\ tokT = 0 /\ cur = <<0, 0, 0>>
+Reset == /\ Is("Reset") /\ bad' = {} /\ deviations' = {} /\ clean' = e.clean /\ builtin' = e.builtin /\ tok' = -1 /\ tokT' = 0
          /\ cur' = <<e.run, e.n, e.c>> /\ l' = l + 1
 
 Covered(p) == \E i \in DOMAIN e.acked : e.acked[i].sp = p.sp /\ e.acked[i].lo <= p.pn /\ p.pn <= e.acked[i].hi
@@ -115,7 +115,10 @@ Step ==
           \cup Flag(\A i \in DOMAIN e.untracked : \E j \in DOMAIN e.disc : e.disc[j] = e.untracked[i],
                     "AckElicitingPacketNotTracked")
           \cup Flag(clean => (e.lost = 0 /\ e.cev = 0), "LossDeclaredOnCleanPath")
-  /\ l' = l + 1 /\ UNCHANGED <<clean, cur>>
+          \* whatever acknowledgements, losses and MTU changes a connection has seen, its built-in
+          \* controller reports a window of at least two datagrams (RFC 9002 7.2)
+          \cup Flag(~builtin \/ e.st >= 2 \/ e.cwnd1 >= 2 * e.mtu1, "WindowBelowTwoDatagrams")
+  /\ l' = l + 1 /\ UNCHANGED <<clean, builtin, cur>>
 
 TNext == (Reset \/ Step)
          /\ (deviations' \subseteq deviations
